@@ -4,6 +4,7 @@ import (
 	"testing"
 	"unicode/utf8"
 
+	"github.com/tsawler/tabula"
 	"github.com/tsawler/tabula/core"
 	"github.com/tsawler/tabula/font"
 )
@@ -77,6 +78,39 @@ func TestCodeSpaceRangeUnderEveryFormatting(t *testing.T) {
 		// 41 00 is ONE two-byte code (-> y); without the code space the decoder guesses and takes 41 alone (-> x)
 		if got := cm.LookupString([]byte{0x41, 0x00, 0x00, 0x41}); got != "yx" {
 			t.Errorf("%q: 4100 0041 decodes to %q, want \"yx\"", csr, got)
+		}
+	}
+}
+
+func fontDoc(fontDict string) []byte {
+	w := newPDF()
+	w.set(1, "<< /Type /Catalog /Pages 2 0 R >>")
+	w.set(2, "<< /Type /Pages /Kids [3 0 R] /Count 1 >>")
+	w.set(3, "<< /Type /Page /Parent 2 0 R /MediaBox [0 0 612 792] /Resources << /Font << /F1 5 0 R >> >> /Contents 4 0 R >>")
+	body := "BT /F1 12 Tf 72 700 Td <010203> Tj ET"
+	w.stream(4, "", body, 0)
+	w.set(5, fontDict)
+	cm := "/CIDInit /ProcSet findresource begin\n12 dict begin\nbegincmap\n1 begincodespacerange\n<00> <FF>\nendcodespacerange\n3 beginbfchar\n<01> <0048>\n<02> <0069>\n<03> <0021>\nendbfchar\nendcmap\n"
+	w.stream(6, "", cm, 0)
+	return w.bytes(1)
+}
+
+
+// C07 / R7.12: only Type1, TrueType and Type0 fonts were registered. A Multiple Master (MMType1) or Type3 font was
+// never parsed, so its strings were decoded by the fallback font as raw codes although the font has a ToUnicode CMap.
+func TestToUnicodeOfEverySimpleFontSubtype(t *testing.T) {
+	for _, fd := range []string{
+		"<< /Type /Font /Subtype /Type1 /BaseFont /Helvetica /ToUnicode 6 0 R >>",
+		"<< /Type /Font /Subtype /MMType1 /BaseFont /MyriadMM /ToUnicode 6 0 R >>",
+		"<< /Type /Font /Subtype /Type3 /FontBBox [0 0 10 10] /FontMatrix [0.1 0 0 0.1 0 0] /CharProcs << >> /Encoding << /Type /Encoding /Differences [1 /a /b /c] >> /FirstChar 1 /LastChar 3 /Widths [10 10 10] /ToUnicode 6 0 R >>",
+	} {
+		p := writeTemp(t, "f.pdf", fontDoc(fd))
+		txt, _, err := tabula.Open(p).Text()
+		if err != nil {
+			t.Fatal(err)
+		}
+		if txt != "Hi!" {
+			t.Errorf("%s...: text %q, want \"Hi!\" (the ToUnicode CMap maps 01 02 03 to it)", fd[:44], txt)
 		}
 	}
 }
